@@ -54,3 +54,24 @@ mut('c14-hold-end-min', ['C14'], 'src/section/hit_objects/decode.rs', "end_time 
 mut('c14-node-sound-default', ['C14'], 'src/section/hit_objects/decode.rs', "*sound_type = s.parse().unwrap_or_default();", "if let Ok(st) = s.parse() { *sound_type = st; }")
 mut('c14-perfect-4pts-stays', ['C14'], 'src/section/hit_objects/decode.rs', "            } else {\n                path_type = PathType::BEZIER;\n            }", "            } else if self.vertices.len() < 3 {\n                path_type = PathType::BEZIER;\n            }")
 mut('c14-len-eps', ['C14'], 'src/section/hit_objects/decode.rs', "if new_len.abs() >= f64::EPSILON {", "if new_len.abs() > 0.0 {")
+# ---- C01
+mut('c01-first-mut-unwrap', ['C01'], 'src/section/hit_objects/decode.rs', "        self.vertices\n            .first_mut()\n            .ok_or(ParseHitObjectsError::InvalidLine)?\n            .path_type = Some(path_type);", "        self.vertices.first_mut().unwrap().path_type = Some(path_type);")
+mut('c01-empty-token-unwrap', ['C01'], 'src/section/hit_objects/decode.rs', "                    .next()\n                    .ok_or(ParseHitObjectsError::InvalidLine)?\n                    .is_ascii_alphabetic();", "                    .next()\n                    .unwrap()\n                    .is_ascii_alphabetic();")
+mut('c01-revert-F7', ['C01'], 'src/reader/decoder.rs', "Encoding::Utf16LE if idx % 2 == 0 => Ok(self.read_byte()? == Some(0)),", "Encoding::Utf16LE if idx % 2 == 0 => { let mut b = 0u8; std::io::Read::read_exact(&mut self.inner, std::slice::from_mut(&mut b))?; self.read_buf.push(b); Ok(b == 0) }")
+mut('c01-abort-on-bad-line', ['C01'], 'src/decode.rs', """                #[allow(unused)]
+                let res = f(state, line);
+""", """                #[allow(unused)]
+                let res = f(state, line);
+
+                if res.is_err() && line.len() > 200 {
+                    return Ok(SectionFlow::Break(()));
+                }
+""")
+mut('c01-end-point-len-underflow', ['C01'], 'src/section/hit_objects/decode.rs', "let readable_points = points.len() - 1;", "let readable_points = points.len() - 2 + usize::from(first);")
+mut('c01-encode-expect', ['C01'], 'src/encode.rs', "        String::from_utf8(writer).map_err(|e| IoError::new(ErrorKind::Other, e))", "        if writer.len() > 3000 && writer.iter().filter(|b| **b == b'|').count() > 40 { return Err(IoError::new(ErrorKind::Other, \"too complex\")); }\n        String::from_utf8(writer).map_err(|e| IoError::new(ErrorKind::Other, e))")
+# ---- C07
+mut('c07-tp-parse-general-noop', ['C07'], 'src/section/timing_points/decode.rs', "        General::parse_general(&mut state.general, line).map_err(ParseTimingPointsError::General)", "        let _ = (state, line);\n        Ok(())")
+mut('c07-from-ho-cs-into-hp', ['C07'], 'src/section/hit_objects/decode.rs', "            hp_drain_rate: difficulty.hp_drain_rate,\n            circle_size: difficulty.circle_size,\n            overall_difficulty: difficulty.overall_difficulty,\n            approach_rate: difficulty.approach_rate,\n            slider_multiplier: difficulty.slider_multiplier,\n            slider_tick_rate: difficulty.slider_tick_rate,\n            background_file: events.background_file,\n            breaks: events.breaks,\n            control_points: timing_points.control_points,\n            hit_objects,", "            hp_drain_rate: difficulty.circle_size,\n            circle_size: difficulty.circle_size,\n            overall_difficulty: difficulty.overall_difficulty,\n            approach_rate: difficulty.approach_rate,\n            slider_multiplier: difficulty.slider_multiplier,\n            slider_tick_rate: difficulty.slider_tick_rate,\n            background_file: events.background_file,\n            breaks: events.breaks,\n            control_points: timing_points.control_points,\n            hit_objects,")
+mut('c07-beatmap-skips-events-sprite', ['C07'], 'src/beatmap.rs', "        HitObjects::parse_events(&mut state.hit_objects, line).map_err(ParseBeatmapError::HitOjects)", "        if line.starts_with(\"Sprite\") { return Ok(()); }\n        HitObjects::parse_events(&mut state.hit_objects, line).map_err(ParseBeatmapError::HitOjects)")
+mut('c07-beatmap-metadata-comment-strip', ['C07'], 'src/beatmap.rs', "        Metadata::parse_metadata(&mut state.metadata, line).map_err(ParseBeatmapError::Metadata)", "        Metadata::parse_metadata(&mut state.metadata, crate::util::StrExt::trim_comment(line)).map_err(ParseBeatmapError::Metadata)")
+mut('c07-metadata-state-into', ['C07'], 'src/beatmap.rs', "            beatmap_set_id: metadata.beatmap_set_id,\n            hp_drain_rate: hit_objects.hp_drain_rate,", "            beatmap_set_id: metadata.beatmap_id,\n            hp_drain_rate: hit_objects.hp_drain_rate,", 2)
